@@ -376,3 +376,339 @@ Proof.
   intros H E. rewrite user_call_S. unfold user_call_step. rewrite H. unfold eval_list in E. rewrite E. reflexivity.
 Qed.
 End Corollaries.
+
+(* ================= C01: the sink ================= *)
+Section Sink.
+
+Lemma is_prefix_app p a b : is_prefix p a = true -> is_prefix p (a ++ b) = true.
+Proof.
+  revert a. induction p as [|x p IH]; intros a H; [reflexivity|].
+  destruct a as [|y a]; [discriminate|]. simpl in *.
+  apply andb_prop in H. destruct H as [H1 H2]. rewrite H1. simpl. apply IH. exact H2.
+Qed.
+
+Lemma entity_tail_app a b : entity_tail a = true -> entity_tail (a ++ b) = true.
+Proof.
+  unfold entity_tail. intros H.
+  repeat (apply orb_prop in H; destruct H as [H|H]);
+    repeat (try (rewrite (is_prefix_app _ _ _ H); rewrite ?orb_true_r; reflexivity)).
+Qed.
+
+(* cleanliness is compositional *)
+Lemma html_clean_app a b : html_clean a = true -> html_clean b = true -> html_clean (a ++ b) = true.
+Proof.
+  induction a as [|c a IH]; intros Ha Hb; [exact Hb|].
+  simpl in *. destruct (is_html_special c); [discriminate|].
+  destruct (c =? 38).
+  - apply andb_prop in Ha. destruct Ha as [H1 H2]. rewrite (entity_tail_app _ _ H1). simpl. apply IH; assumption.
+  - apply IH; assumption.
+Qed.
+
+Lemma html_clean_flat_map {A} (f : A -> bytes) l :
+  (forall x, In x l -> html_clean (f x) = true) -> html_clean (flat_map f l) = true.
+Proof.
+  induction l as [|x l IH]; intros H; [reflexivity|]. simpl.
+  apply html_clean_app; [apply H; left; reflexivity|apply IH; intros y Hy; apply H; right; exact Hy].
+Qed.
+
+(* bytes that are neither special nor an ampersand *)
+Definition plain_byte (c : N) : bool := negb (is_html_special c) && negb (c =? 38).
+Lemma html_clean_plain s : forallb plain_byte s = true -> html_clean s = true.
+Proof.
+  intros H. rewrite <- (app_nil_r s). rewrite html_clean_app_plain; [reflexivity|exact H].
+Qed.
+
+(* what the sink writes for the scalar kinds *)
+Theorem write_string f h s : write_fuel (S f) h (VStr s) = html_escape s.
+Proof. reflexivity. Qed.
+Theorem write_html f h s : write_fuel (S f) h (VHTML s) = s.
+Proof. reflexivity. Qed.
+Theorem write_int f h z : write_fuel (S f) h (VInt z) = dec_of_Z z.
+Proof. reflexivity. Qed.
+Theorem write_bool f h b : write_fuel (S f) h (VBool b) = if b then s_true else s_false.
+Proof. reflexivity. Qed.
+Theorem write_list f h vs : write_fuel (S f) h (VList vs) = flat_map (write_fuel f h) vs.
+Proof. reflexivity. Qed.
+Theorem write_ret f h vs : write_fuel (S f) h (VRet vs) = flat_map (write_fuel f h) vs.
+Proof. reflexivity. Qed.
+Theorem write_nil f h : write_fuel f h VNil = [].
+Proof. destruct f; reflexivity. Qed.
+
+(* a string leaf is escaped (exactly once: the output is html_escape s, and
+   html_escape of that would differ), trusted HTML is emitted verbatim *)
+Theorem write_string_clean f h s : html_clean (write_fuel (S f) h (VStr s)) = true.
+Proof. rewrite write_string. apply html_escape_clean. Qed.
+
+(* values without trusted-HTML leaves and without numbers/floats render clean:
+   strings, booleans, nil and (nested) lists / returns of those *)
+Fixpoint string_only (fuel : nat) (v : value) : bool :=
+  match fuel with
+  | O => false
+  | S f =>
+      match v with
+      | VStr _ | VBool _ | VNil => true
+      | VList vs | VRet vs => forallb (string_only f) vs
+      | _ => false
+      end
+  end.
+
+Theorem write_string_only_clean fuel : forall h v, string_only fuel v = true -> html_clean (write_fuel fuel h v) = true.
+Proof.
+  induction fuel as [|f IH]; intros h v H; [discriminate|].
+  destruct v; simpl in H; try discriminate.
+  - reflexivity.
+  - simpl. destruct b; reflexivity.
+  - apply write_string_clean.
+  - rewrite write_ret. apply html_clean_flat_map. intros x Hx. apply IH.
+    rewrite forallb_forall in H. exact (H x Hx).
+  - rewrite write_list. apply html_clean_flat_map. intros x Hx. apply IH.
+    rewrite forallb_forall in H. exact (H x Hx).
+Qed.
+End Sink.
+
+(* ================= C08: loops ================= *)
+Section Loops.
+Variable G : genv.
+
+Lemma for_items_S fuel st k v b items acc :
+  for_items G (S fuel) st k v b items acc = for_items_step (evals_at G fuel) st k v b items acc.
+Proof. reflexivity. Qed.
+Lemma for_body_S fuel st k v b kv vv :
+  for_body G (S fuel) st k v b kv vv = for_body_step (evals_at G fuel) st k v b kv vv.
+Proof. reflexivity. Qed.
+
+(* no elements left: the loop yields what the iterations produced, in order *)
+Theorem for_items_done fuel st k v b acc :
+  for_items G (S fuel) st k v b [] acc = ROk (VList acc, st).
+Proof. reflexivity. Qed.
+
+(* one more element: the body runs once with key and value bound; its output is
+   appended; the loop goes on with the remaining elements ... *)
+Theorem for_items_next fuel st k v b kv vv rest acc x st1 :
+  for_body G fuel st k v b kv vv = ROk ((x, false), st1) ->
+  for_items G (S fuel) st k v b ((kv, vv) :: rest) acc = for_items G fuel st1 k v b rest (acc ++ [x]).
+Proof.
+  intros E. rewrite for_items_S. unfold for_items_step. unfold for_body in E. rewrite E. reflexivity.
+Qed.
+
+(* ... unless the body ended in break: what the iteration produced is kept and
+   the remaining elements are not visited *)
+Theorem for_items_break fuel st k v b kv vv rest acc x st1 :
+  for_body G fuel st k v b kv vv = ROk ((x, true), st1) ->
+  for_items G (S fuel) st k v b ((kv, vv) :: rest) acc = ROk (VList (acc ++ [x]), st1).
+Proof.
+  intros E. rewrite for_items_S. unfold for_items_step. unfold for_body in E. rewrite E. reflexivity.
+Qed.
+
+(* a failing body fails the loop *)
+Theorem for_items_error fuel st k v b kv vv rest acc e st1 :
+  for_body G fuel st k v b kv vv = RErr e st1 ->
+  for_items G (S fuel) st k v b ((kv, vv) :: rest) acc = RErr e st1.
+Proof.
+  intros E. rewrite for_items_S. unfold for_items_step. unfold for_body in E. rewrite E. reflexivity.
+Qed.
+
+(* the body of one iteration: key and value are bound in the current scope, the
+   block is evaluated; continue keeps what was produced and goes on, break keeps
+   it and stops, anything else (including a return object) is the iteration's output *)
+Theorem for_body_spec fuel st k v b kv vv :
+  for_body G (S fuel) st k v b kv vv =
+  rbind (eval_block G fuel (set_in (set_in st (scur st) k kv) (scur st) v vv) b)
+        (fun rs => let '(r, st2) := rs in
+           match r with
+           | VCont vs => ROk ((VList vs, false), st2)
+           | VBrk vs => ROk ((VList vs, true), st2)
+           | x => ROk ((x, false), st2)
+           end).
+Proof. reflexivity. Qed.
+
+(* inside a block: break / continue stop the block, keeping what the block
+   already produced (acc) followed by what the control object carries *)
+Lemma eval_stmts_S fuel st ss acc : eval_stmts G (S fuel) st ss acc = eval_stmts_step (evals_at G fuel) st ss acc.
+Proof. reflexivity. Qed.
+
+Theorem block_break_keeps_output fuel st s rest acc vs st1 :
+  eval_stmt G fuel st s = ROk (VBrk vs, st1) ->
+  eval_stmts G (S fuel) st (s :: rest) acc = ROk (VBrk (acc ++ vs), st1).
+Proof. intros E. rewrite eval_stmts_S. unfold eval_stmts_step. unfold eval_stmt in E. rewrite E. reflexivity. Qed.
+
+Theorem block_continue_keeps_output fuel st s rest acc vs st1 :
+  eval_stmt G fuel st s = ROk (VCont vs, st1) ->
+  eval_stmts G (S fuel) st (s :: rest) acc = ROk (VCont (acc ++ vs), st1).
+Proof. intros E. rewrite eval_stmts_S. unfold eval_stmts_step. unfold eval_stmt in E. rewrite E. reflexivity. Qed.
+
+Theorem block_done fuel st acc : eval_stmts G (S fuel) st [] acc = ROk (VList acc, st).
+Proof. reflexivity. Qed.
+End Loops.
+
+(* ================= C17: blocks handed to helpers ================= *)
+Section Blocks.
+Variable G : genv.
+
+Lemma block_with_S fuel st blk ctx : block_with G (S fuel) st blk ctx = block_with_step (evals_at G fuel) st blk ctx.
+Proof. reflexivity. Qed.
+
+(* a block helper receives exactly what its block renders to in the given
+   scope (the sink applied to the block's value), and the caller's scope is
+   restored afterwards - also when the block fails *)
+Theorem block_with_ok fuel st b ctx v st1 :
+  eval_block G fuel (with_cur st ctx) b = ROk (v, st1) -> printable (sheap st1) v = true ->
+  block_with G (S fuel) st (Some b) ctx = ROk (write (sheap st1) v, with_cur st1 (scur st)).
+Proof.
+  intros E P. rewrite block_with_S. unfold block_with_step. unfold eval_block in E. rewrite E, P. reflexivity.
+Qed.
+
+Theorem block_with_error fuel st b ctx e st1 :
+  eval_block G fuel (with_cur st ctx) b = RErr e st1 ->
+  block_with G (S fuel) st (Some b) ctx = RErr e (with_cur st1 (scur st)).
+Proof.
+  intros E. rewrite block_with_S. unfold block_with_step. unfold eval_block in E. rewrite E. reflexivity.
+Qed.
+
+Theorem block_with_none fuel st ctx : block_with G (S fuel) st None ctx = RErr (EFail None) st.
+Proof. reflexivity. Qed.
+End Blocks.
+
+(* ================= C09: a fresh scope never clobbers existing ones ================= *)
+From Plush Require Import spec.RefCtx proofs.CtxProofs.
+Section Frame.
+Variable G : genv.
+Local Open Scope nat_scope.
+
+Notation cvalue := (Ctx.value value VNil).
+
+(* values of existing contexts are not changed by pushing a context *)
+Lemma value_push cx (s : store value) c k : c < length s -> cvalue (cx :: s) c k = cvalue s c k.
+Proof. intros H. simpl. destruct (Nat.eqb_spec c (length s)); [lia|reflexivity]. Qed.
+
+(* a Set on a context with a larger id is invisible to every older context *)
+Lemma value_set_newer (s : store value) n c k v k' : c < n -> cvalue (Ctx.set value s n k v) c k' = cvalue s c k'.
+Proof.
+  intros H. apply (set_isolated value VNil). apply (on_path_below value). exact H.
+Qed.
+
+Lemma value_fold_set_newer (cond : store value -> key -> bool) n c k' hs : forall (s : store value), c < n ->
+  cvalue (fold_left (fun s kv => if cond s (fst kv) then s else Ctx.set value s n (fst kv) (snd kv)) hs s) c k' = cvalue s c k'.
+Proof.
+  induction hs as [|[k v] r IH]; intros s H; simpl; [reflexivity|].
+  destruct (cond s k); rewrite IH by exact H; [reflexivity|apply value_set_newer; exact H].
+Qed.
+
+(* New(): every existing context answers every key as before *)
+Theorem new_child_frame (s : store value) p c k : c < length s ->
+  cvalue (fst (Ctx.new_child value VNil is_nil (g_helpers G) s p)) c k = cvalue s c k.
+Proof.
+  intros H. unfold Ctx.new_child, Ctx.inject_child. simpl fst.
+  rewrite (value_fold_set_newer
+             (fun s0 k0 => (Ctx.has value VNil is_nil s0 (length s) k0 || Ctx.has value VNil is_nil s0 p k0)%bool)
+             (length s) c k (g_helpers G)) by exact H.
+  apply value_push. exact H.
+Qed.
+
+(* the scope a for / function call / partial / contentOf / block helper works in
+   is a fresh child: whatever is bound in it (loop variables, parameters, data,
+   let) leaves every existing context - in particular same-named outer
+   variables - exactly as it was *)
+Theorem fresh_scope_frame st kvs c k : c < length (sctx st) ->
+  let '(st1, n) := cnew G st in
+  cvalue (sctx (set_all st1 n kvs)) c k = cvalue (sctx st) c k.
+Proof.
+  intros H. unfold cnew, cnew_of.
+  destruct (Ctx.new_child value VNil is_nil (g_helpers G) (sctx st) (scur st)) as [s' n] eqn:E.
+  assert (Hn: n = length (sctx st)) by (unfold Ctx.new_child in E; inversion E; reflexivity).
+  assert (Hs: s' = fst (Ctx.new_child value VNil is_nil (g_helpers G) (sctx st) (scur st))) by (rewrite E; reflexivity).
+  unfold set_all.
+  assert (Hf: forall l st0, cvalue (sctx st0) c k = cvalue (sctx st) c k ->
+            cvalue (sctx (fold_left (fun s kv => set_in s n (fst kv) (snd kv)) l st0)) c k = cvalue (sctx st) c k).
+  { induction l as [|[k0 v0] r IH]; intros st0 H0; simpl; [exact H0|].
+    apply IH. unfold set_in, with_ctx. simpl. rewrite value_set_newer by lia. exact H0. }
+  apply Hf. simpl. rewrite Hs. apply new_child_frame. exact H.
+Qed.
+
+End Frame.
+
+(* ================= C12: binding arguments of Go helpers ================= *)
+Section Binding.
+Variable G : genv.
+
+Lemma bind_fixed_S fuel st ps args : bind_fixed G (S fuel) st ps args = bind_fixed_step (evals_at G fuel) st ps args.
+Proof. reflexivity. Qed.
+Lemma bind_args_S fuel st sg args blk : bind_args G (S fuel) st sg args blk = bind_args_step (evals_at G fuel) st sg args blk.
+Proof. reflexivity. Qed.
+Lemma eval_call_S fuel st fn callee args blk chain :
+  eval_call G (S fuel) st fn callee args blk chain = eval_call_step G (evals_at G fuel) st fn callee args blk chain.
+Proof. reflexivity. Qed.
+
+Theorem bind_fixed_done fuel st ps : bind_fixed G (S fuel) st ps [] = ROk ([], st).
+Proof. reflexivity. Qed.
+
+(* each supplied argument is evaluated once, in order, and passed positionally:
+   nil becomes the parameter's zero value, an assignable value is passed
+   unchanged, anything else rejects the call *)
+Theorem bind_fixed_nil_arg fuel st p ps a rest st1 :
+  eval G fuel st a = ROk (VNil, st1) ->
+  bind_fixed G (S fuel) st (p :: ps) (a :: rest) =
+  rbind (bind_fixed G fuel st1 ps rest) (fun bs => let '(b, s) := bs in ROk (zero_of p :: b, s)).
+Proof. intros E. rewrite bind_fixed_S. unfold bind_fixed_step. unfold eval in E. rewrite E. reflexivity. Qed.
+
+Theorem bind_fixed_assignable fuel st p ps a rest v st1 :
+  eval G fuel st a = ROk (v, st1) -> v <> VNil -> assignable (sheap st1) v p = true ->
+  bind_fixed G (S fuel) st (p :: ps) (a :: rest) =
+  rbind (bind_fixed G fuel st1 ps rest) (fun bs => let '(b, s) := bs in ROk (BV v :: b, s)).
+Proof.
+  intros E Hn Ha. rewrite bind_fixed_S. unfold bind_fixed_step. unfold eval in E. rewrite E. simpl.
+  destruct v; try contradiction; rewrite Ha; reflexivity.
+Qed.
+
+Theorem bind_fixed_not_assignable fuel st p ps a rest v st1 :
+  eval G fuel st a = ROk (v, st1) -> v <> VNil -> assignable (sheap st1) v p = false ->
+  bind_fixed G (S fuel) st (p :: ps) (a :: rest) = RErr (EFail None) st1.
+Proof.
+  intros E Hn Ha. rewrite bind_fixed_S. unfold bind_fixed_step. unfold eval in E. rewrite E. simpl.
+  destruct v; try contradiction; rewrite Ha; reflexivity.
+Qed.
+
+Theorem bind_fixed_arg_failure fuel st p ps a rest e st1 :
+  eval G fuel st a = RErr e st1 ->
+  bind_fixed G (S fuel) st (p :: ps) (a :: rest) = RErr e st1.
+Proof. intros E. rewrite bind_fixed_S. unfold bind_fixed_step. unfold eval in E. rewrite E. reflexivity. Qed.
+
+(* too many arguments for a non-variadic function: rejected before any argument is evaluated *)
+Theorem bind_args_too_many fuel st sg args blk :
+  sg_variadic sg = false -> Nat.ltb (length (sg_params sg)) (length args) = true ->
+  bind_args G (S fuel) st sg args blk = RErr (EFail None) st.
+Proof. intros Hv H. rewrite bind_args_S. unfold bind_args_step. rewrite Hv, H. reflexivity. Qed.
+
+(* what is supplied for an omitted trailing parameter *)
+Theorem auto_arg_helper_context st blk : auto_arg st PHCtx blk = (st, BHelp (HC (scur st) blk)).
+Proof. reflexivity. Qed.
+Theorem auto_arg_helper_context_iface st blk : auto_arg st PHCtxI blk = (st, BHelp (HC (scur st) blk)).
+Proof. reflexivity. Qed.
+Theorem auto_arg_map st blk : exists l, auto_arg st PMap blk = (with_heap st (sheap st ++ [HMap TyString TyIface []]), BMap l) /\ l = length (sheap st).
+Proof. eexists. split; reflexivity. Qed.
+
+(* a rejected call does not invoke the function: go_apply is only reached
+   through a successful binding *)
+Theorem call_rejected_not_invoked fuel st lit args blk chain id cfg sg e st1 st2 name :
+  eval G fuel st (EIdent lit None [name]) = ROk (VGo id cfg, st1) ->
+  g_sig G id cfg = Some sg ->
+  bind_args G fuel st1 sg args blk = RErr e st2 ->
+  eval_call G (S fuel) st (EIdent lit None [name]) None args blk chain = RErr e st2.
+Proof.
+  intros E Hs Hb. rewrite eval_call_S. unfold eval_call_step. cbv zeta. unfold eval in E. rewrite E. simpl.
+  rewrite Hs. unfold bind_args in Hb. rewrite Hb. reflexivity.
+Qed.
+
+(* and when the binding succeeds the call's value is the function's first result *)
+Theorem call_bound_invokes fuel st lit args blk id cfg sg st1 bound st2 name :
+  eval G fuel st (EIdent lit None [name]) = ROk (VGo id cfg, st1) ->
+  g_sig G id cfg = Some sg -> sg_nres sg <> O ->
+  bind_args G fuel st1 sg args blk = ROk (bound, st2) ->
+  eval_call G (S fuel) st (EIdent lit None [name]) None args blk ENil = go_apply G fuel st2 id cfg None bound.
+Proof.
+  intros E Hs Hn Hb. rewrite eval_call_S. unfold eval_call_step. cbv zeta. unfold eval in E. rewrite E. simpl.
+  rewrite Hs. unfold bind_args in Hb. rewrite Hb. simpl. unfold go_apply.
+  destruct (r_go_apply (evals_at G fuel) st2 id cfg None bound) as [[rv st3]| | | |]; simpl; try reflexivity.
+  destruct (Nat.eqb_spec (sg_nres sg) 0); [contradiction|reflexivity].
+Qed.
+End Binding.
